@@ -186,6 +186,7 @@ theorem addNeg_ok {t : Tree} (pre : DMPre t) (hso : Sorted t) :
   | succ fuel ih =>
     intro j fl hj hjs hjoin
     unfold addNegationForOperands
+    rw [dealiased_eq pre]
     cases hg : t.get j with
     | joined op operands =>
       simp only
